@@ -47,6 +47,14 @@ pub open spec fn nostr_id_owned_by_other_group(groups: Map<GroupId, Group>, n: [
     exists|o: GroupId| o != g && #[trigger] groups.contains_key(o) && groups[o].nostr_group_id == n
 }
 
+// C08 "incoming events are matched to the group by the Nostr group id currently in force": the id an event carries in its
+// h tag (what MDK::extract_nostr_group_id returns; its checks are decided in unit event_validation) and the group whose
+// STORED record carries that id now
+pub uninterp spec fn event_h_tag_id(e: Event) -> Option<[u8; 32]>;
+pub open spec fn routed_by_id_in_force(w: World, e: Event, g: GroupId) -> bool {
+    event_h_tag_id(e) is Some && w.groups.contains_key(g) && w.groups[g].nostr_group_id == event_h_tag_id(e)->Some_0
+}
+
 // C06: a refused event leaves nothing behind but (at most) its own failure record
 pub open spec fn only_failure_record(a: World, b: World, id: EventId) -> bool {
     b == (World { processed: b.processed, ..a })
